@@ -133,7 +133,9 @@ def pagesFrom (block : Nat) : Nat → List Nat
 /-- blockTracking[p] = tracker id -/
 def setTrack (t : List (Nat × Nat)) (p id : Nat) : List (Nat × Nat) := (p, id) :: t.filter (fun e => e.1 != p)
 
-def allocMulti (s : State) (n : Nat) : Except Fault (List Nat × State) :=
+/-- the body of `allocateMultiplePages` below its zero-page guard (before the repair of the zero-page leak this
+was the whole function: for `n = 0` it takes a one-page block and records a tracker without pages) -/
+def allocMultiPos (s : State) (n : Nat) : Except Fault (List Nat × State) :=
   let fl := s.free.length - 1
   let ord := ordOf (n * 4096)
   if fl < ord then .error .oom else          -- level < 0: the search panics at once
@@ -155,6 +157,11 @@ def allocMulti (s : State) (n : Nat) : Except Fault (List Nat × State) :=
         let id := s2.trk.length
         .ok (pages, { s2 with trk := s2.trk ++ [(block, n)],
                               track := pages.foldl (fun t p => setTrack t p id) s2.track })
+
+/-- `deviceBuddyMemoryState.allocateMultiplePages` (repaired): `if numPages <= 0 { return nil }` — a request
+for no page takes no block and records no tracker -/
+def allocMulti (s : State) (n : Nat) : Except Fault (List Nat × State) :=
+  if n = 0 then .ok ([], s) else allocMultiPos s n
 
 /-! ## addSinglePAddr / freeBlock -/
 
@@ -392,6 +399,34 @@ def runLiveOld : State → List Nat → List Op → LiveRun
       | .error _ => ⟨true, live, s⟩
       | .ok (ps, s') => runLiveOld s' (live ++ ps) ops
 
+/-! ## the code before the repair of the zero-page leak (`allocateMultiplePages` without its `numPages <= 0`
+guard): kept for the `_before_fix` witness -/
+
+def amOpNoGuard (s : State) (n : Nat) : Except Fault (List Nat × State) :=
+  if noAvail s then .error .oom else
+  match allocMultiPos s n with
+  | .error e => .error e
+  | .ok (ps, s') => if ps.all (inDev s') then .ok (ps, s') else .error .noDevice
+
+def stepNoGuard (s : State) : Op → Except Fault (List Nat × State)
+  | .am n => amOpNoGuard s n
+  | op => step s op
+
+def runLiveNoGuard : State → List Nat → List Op → LiveRun
+  | s, live, [] => ⟨true, live, s⟩
+  | s, live, op :: ops =>
+    match op with
+    | .add ps =>
+      if ps.Nodup ∧ ∀ p ∈ ps, p ∈ live then
+        match stepNoGuard s op with
+        | .error _ => ⟨true, live, s⟩
+        | .ok (_, s') => runLiveNoGuard s' (live.filter (fun p => !ps.contains p)) ops
+      else ⟨false, live, s⟩
+    | _ =>
+      match stepNoGuard s op with
+      | .error _ => ⟨true, live, s⟩
+      | .ok (ps, s') => runLiveNoGuard s' (live ++ ps) ops
+
 /-! ## line protocol
 
 `c10 buddy base=<hex> size=<hex> v=<0|1> ; pop <k> ; am <n> ; add <hex>,<hex>,… ; …`
@@ -415,21 +450,38 @@ def parseOp (t : List String) : Option Op :=
   | ["add", ps] => (hexList? ps).map .add
   | _ => none
 
+/-- `amadd n p,p,…`: what ONE repaired `Remap` of `n` pages does to the device it remaps onto when the replaced
+pages `p,…` live on the same device — `allocateMultiplePages(n)`, then `addSinglePAddr` of every replaced page;
+one answer (the pages handed out, the free blocks after both) -/
+def amAdd (s : State) (n : Nat) (ps : List Nat) : Except Fault (List Nat × State) :=
+  match step s (.am n) with
+  | .error e => .error e
+  | .ok (out, s1) =>
+    match step s1 (.add ps) with
+    | .error e => .error e
+    | .ok (_, s2) => .ok (out, s2)
+
 def runTrace (verbose : Bool) : State → List (List String) → List String → List String
   | _, [], acc => acc.reverse
   | s, t :: ts, acc =>
-    match parseOp t with
+    let res : Option (Except Fault (List Nat × State) × Bool) :=
+      match t with
+      | ["amadd", n, ps] =>
+        match n.toNat?, hexList? ps with
+        | some n, some ps => some (amAdd s n ps, false)
+        | _, _ => none
+      | _ =>
+        match parseOp t with
+        | none => none
+        | some op => some (step s op, match op with | .add _ => true | _ => false)
+    match res with
     | none => ("bad-op" :: acc).reverse
-    | some op =>
-      match step s op with
-      | .error e => (e.str :: acc).reverse
-      | .ok (ps, s') =>
-        let r := match op with
-          | .add _ => "ok"
-          | _ => "=" ++ joinWith "," (ps.map toHex)
-        let d := dump s'
-        let o := if verbose then r ++ " " ++ d else r ++ " #" ++ toHex (fnvStr d)
-        runTrace verbose s' ts (o :: acc)
+    | some (.error e, _) => (e.str :: acc).reverse
+    | some (.ok (ps, s'), isAdd) =>
+      let r := if isAdd then "ok" else "=" ++ joinWith "," (ps.map toHex)
+      let d := dump s'
+      let o := if verbose then r ++ " " ++ d else r ++ " #" ++ toHex (fnvStr d)
+      runTrace verbose s' ts (o :: acc)
 
 def handle (line : String) : String :=
   match splitTrim line ";" with
